@@ -747,8 +747,14 @@ impl Engine for C10 {
                 };
                 bundles.push(BundleSpec { spends, sig: rng.below(8) as u8, corrupt });
             }
-            let cost = if rng.below(100) < fault_pct {
-                match rng.below(6) {
+            // the first attempts decide most boundary cases (nothing shared yet): fault them more often
+            let first = !ops.iter().any(|o| matches!(o, Op::Add { .. }));
+            let pct = if first && fault_pct > 0 { fault_pct.max(40) } else { fault_pct };
+            let cost = if rng.below(100) < pct {
+                match rng.below(9) {
+                    6 => CostSpec::Land { delta: 5 * cost_per_byte as i64 },
+                    7 => CostSpec::Land { delta: 10 * cost_per_byte as i64 },
+                    8 => CostSpec::Land { delta: 12 * cost_per_byte as i64 },
                     0 => CostSpec::Land { delta: 0 },
                     1 => CostSpec::Land { delta: 1 },
                     2 => CostSpec::Land { delta: -(cost_per_byte as i64) },
